@@ -19,12 +19,12 @@ RULE = ('Three generated families, N in 1..8 rows (one case in five: 9..40), row
         'N-row vs single inputs (pairs with relative angle 0 or >= 1e-4, either sign). estimators: every single-frame estimator of '
         'the shared table given N samples vs its per-sample estimate with the same options (Tilt x3 representations, SAAM x2, TRIAD '
         'x2 x frames, FLAE x3 methods, FQA, FAMC, QUEST, Davenport, seeded OLEQ, AQUA acc / acc+mag, am2angles), on consistent and on '
-        'random (inconsistent) samples, plus one-sample call vs one-row batch. Oracle: equality to 1e-12 with the sign included '
+        'random (inconsistent) samples and on integer-dtype samples (raw counts in [-40,40]), plus one-sample call vs one-row batch. Oracle: equality to 1e-12 with the sign included '
         '(arccos-based metrics: 1e-12 + min(1e-7, 2e-15/d); estimator rows where the scalar path itself moves by as much under a 4-ulp input perturbation are excused as ill-conditioned, measured per case); NaN patterns and exception types must agree. Non-trivial: N >= 2 and '
         'the selected row is not the first; distinct = case hash.')
 ASSUMPTIONS = ['is_pure/is_real/... predicates are not twins (exact vs isclose tests, documented difference)',
                'OLEQ: the single call is aligned with the batch by seeding numpy and discarding the draws of the earlier rows']
-REQUIRED_LABELS = ['quat:N>=2', 'metrics:N>=2', 'estimators:N>=2', 'quat:N>=9', 'metrics:N>=9', 'estimators:N>=9', 'estimators:data=random', 'estimators:data=consistent']
+REQUIRED_LABELS = ['quat:N>=2', 'metrics:N>=2', 'estimators:N>=2', 'quat:N>=9', 'metrics:N>=9', 'estimators:N>=9', 'estimators:data=random', 'estimators:data=consistent', 'estimators:data=integer']
 TOL = 1e-12
 
 
@@ -195,11 +195,15 @@ def _est_case():
     @st.composite
     def build(draw):
         n = draw(BATCH_SIZES)
-        data = draw(st.sampled_from(['random', 'consistent']))
+        data = draw(st.sampled_from(['random', 'consistent', 'random', 'consistent', 'integer']))
         samples = []
+        ints = st.integers(-40, 40)
         for _ in range(n):
             if data == 'random':
                 samples.append({'acc': draw(gen.vectors3(-2, 2)), 'mag': draw(gen.vectors3(-2, 3))})
+            elif data == 'integer':
+                # raw sensor counts: integer-dtype arrays are accepted by the input checks of every estimator
+                samples.append({'acc': [draw(ints), draw(ints), draw(ints)], 'mag': [draw(ints), draw(ints), draw(ints)]})
             else:
                 samples.append({'q': draw(st.one_of(gen.unit_quaternions(allow_denormal=False), class_b_quaternion())),
                                 's_a': draw(gen.log_uniform(-1, 2)), 's_m': draw(gen.log_uniform(-1, 2))})
@@ -219,7 +223,17 @@ def eval_estimators(case, ctx):
     pick = [rows[(int(case['row']) + k*7) % len(rows)] for k in range(3)]
     for row in pick:
         frame = case['frame'] if case['frame'] in row.frames else row.frames[0]
-        if case['data'] == 'random':
+        if case['data'] == 'integer':
+            ACC = np.array([s['acc'] for s in case['samples']], dtype=np.int64)
+            MAG = np.array([s['mag'] for s in case['samples']], dtype=np.int64)
+            for k in range(n):
+                if not ACC[k].any():
+                    ACC[k] = [1, -2, 7]
+                c = float(np.dot(ACC[k], MAG[k]))/max(float(np.linalg.norm(ACC[k])*np.linalg.norm(MAG[k])), 1e-300) if MAG[k].any() else 1.0
+                if abs(c) > math.cos(math.radians(1.0)):
+                    other = np.array([1, -2, 3]) if np.cross(ACC[k], [1, -2, 3]).any() else np.array([3, 1, -2])
+                    MAG[k] = np.cross(ACC[k], other) + ACC[k]        # integer, 45 degrees or more away from acc
+        elif case['data'] == 'random':
             ACC = np.array([s['acc'] for s in case['samples']], dtype=float)
             MAG = np.array([s['mag'] for s in case['samples']], dtype=float)
             # keep acc and mag at least 1 degree from parallel (domain of the estimators)
@@ -361,7 +375,8 @@ def judge(ctx, name, got, ref, single_fn, acc, mag):
             continue
         if not singular:
             sens = max(sens, float(np.max(np.abs(np.asarray(p, dtype=complex) - np.asarray(ref, dtype=complex)))))
-    if singular:
+    if singular or sens > 1e-6:
+        # the per-sample path raises, returns NaN or swings by more than 1e-6 under rounding-size input noise: a singular pose
         ctx.label('singular_pose_skipped')
         return
     g, r = np.asarray(got), np.asarray(ref)
